@@ -183,7 +183,7 @@ impl<'g> FnCx<'g> {
             if n == "None" {
                 let inner = match expect.map(|t| self.u.resolve(t)) {
                     Some(Ty::Opt(t)) => *t,
-                    _ => Ty::Never,
+                    _ => self.u.fresh_any(),
                 };
                 return Ok(Val::pure("none", Ty::opt(inner)));
             }
@@ -223,6 +223,26 @@ impl<'g> FnCx<'g> {
             }
             Eq(_) | Ne(_) | Lt(_) | Le(_) | Gt(_) | Ge(_) => {
                 let t = self.u.unify(&l.ty, &r.ty)?;
+                // a struct compared with `==`: its own `PartialEq::eq` when it has one (translated), else field-wise
+                let custom = match &t {
+                    Ty::Struct(n) => self.g.fns.get(&format!("{}::eq", n)).cloned().map(|s| (s, false)),
+                    Ty::Opt(inner) => match &**inner {
+                        Ty::Struct(n) => self.g.fns.get(&format!("{}::eq", n)).cloned().map(|s| (s, true)),
+                        _ => None,
+                    },
+                    _ => None,
+                };
+                if let (Some((sig, opt)), true) = (custom, matches!(op, Eq(_) | Ne(_))) {
+                    let tmp = self.fresh_tmp();
+                    let call = if opt {
+                        format!("(match {}, {} with | some x_, some y_ => {} x_ y_ | none, none => .ok true | _, _ => .ok false)", paren_atom(&a), paren_atom(&b), sig.lean)
+                    } else {
+                        format!("{} {} {}", sig.lean, paren_atom(&a), paren_atom(&b))
+                    };
+                    steps.push(Step::BindOk(tmp.clone(), call));
+                    let (atom, prop) = if matches!(op, Eq(_)) { (tmp.clone(), format!("{} = true", tmp)) } else { (format!("(!{})", tmp), format!("{} = false", tmp)) };
+                    return Ok(Val { steps, atom, prop: Some(prop), ty: Ty::Bool });
+                }
                 let sym = match op {
                     Eq(_) => "=",
                     Ne(_) => "≠",
@@ -231,6 +251,33 @@ impl<'g> FnCx<'g> {
                     Gt(_) => ">",
                     _ => "≥",
                 };
+                if let (Ty::Tuple(ts), false) = (&t, matches!(op, Eq(_) | Ne(_))) {
+                    // (u32, u32) ordering: lexicographic
+                    if ts.len() != 2 || !ts.iter().all(|x| matches!(x, Ty::Int(it) if !it.signed())) {
+                        return unsupported("ordering comparison on this tuple type", sp);
+                    }
+                    let atom = match op {
+                        Lt(_) => format!("(ltPair {} {})", paren_atom(&a), paren_atom(&b)),
+                        Le(_) => format!("(!ltPair {} {})", paren_atom(&b), paren_atom(&a)),
+                        Gt(_) => format!("(ltPair {} {})", paren_atom(&b), paren_atom(&a)),
+                        _ => format!("(!ltPair {} {})", paren_atom(&a), paren_atom(&b)),
+                    };
+                    return Ok(Val { steps, atom, prop: None, ty: Ty::Bool });
+                }
+                if let (Ty::Opt(inner), false) = (&t, matches!(op, Eq(_) | Ne(_))) {
+                    // Option<T: Ord>: None is smaller than every Some
+                    if !matches!(**inner, Ty::Int(_) | Ty::IVar(_)) {
+                        return unsupported("ordering comparison on Option of a non-integer", sp);
+                    }
+                    let (x, y, strict) = match op {
+                        Lt(_) => (a.clone(), b.clone(), true),
+                        Le(_) => (a.clone(), b.clone(), false),
+                        Gt(_) => (b.clone(), a.clone(), true),
+                        _ => (b.clone(), a.clone(), false),
+                    };
+                    let atom = format!("(rsOptLt {} {} {})", if strict { "true" } else { "false" }, paren_atom(&x), paren_atom(&y));
+                    return Ok(Val { steps, atom, prop: None, ty: Ty::Bool });
+                }
                 if !(t.is_int() || t == Ty::Char || t == Ty::Bool || matches!(op, Eq(_) | Ne(_))) {
                     return unsupported("ordering comparison on a non-integer", sp);
                 }
@@ -324,7 +371,9 @@ impl<'g> FnCx<'g> {
                         }
                     }
                     Div(_) | Rem(_) => {
-                        steps.push(Step::Guard(format!("{} ≠ 0", b), ".panic".into()));
+                        if !b.parse::<u128>().map(|n| n != 0).unwrap_or(false) {
+                            steps.push(Step::Guard(format!("{} ≠ 0", b), ".panic".into()));
+                        }
                         if it.signed() {
                             steps.push(Step::Guard(format!("¬({} = {} ∧ {} = -1)", a, it.min(), b), ".panic".into()));
                             let f = if matches!(op, Div(_)) { "Int.tdiv" } else { "Int.tmod" };
@@ -384,6 +433,10 @@ impl<'g> FnCx<'g> {
         };
         let mut steps = base.steps.clone();
         if let syn::Expr::Range(r) = strip_paren(&i.index) {
+            if r.start.is_none() && r.end.is_none() {
+                // `x[..]`: the whole thing
+                return Ok(Val { steps, atom: base.atom, prop: None, ty: bty });
+            }
             // slicing
             let lo = match &r.start {
                 Some(e) => {
@@ -510,9 +563,38 @@ impl<'g> FnCx<'g> {
                 return Ok(Val { steps: vec![Step::Guard("False".into(), ".panic".into())], atom: "default".into(), prop: None, ty: expect.cloned().unwrap_or(Ty::Never) });
             }
             ("io::Error::new", 2) => return Ok(Val::pure("Err.io", Ty::Error)),
+            ("String::from_utf8", 1) => {
+                // only the all-ASCII case is modelled as success (a conservative reading: non-ASCII valid UTF-8
+                // would succeed in Rust; the translated callers only ever build ASCII)
+                let v = self.expr(args[0], Some(&Ty::Str))?;
+                self.u.unify(&v.ty, &Ty::Str)?;
+                return Ok(Val { steps: v.steps, atom: format!("(if {}.all (fun b_ => decide (b_ < 128)) then some {} else none)", paren_atom(&v.atom), paren_atom(&v.atom)), prop: None, ty: Ty::opt(Ty::Str) });
+            }
+            ("Cow::Borrowed", 1) | ("Cow::Owned", 1) => return self.expr(args[0], expect),
+            ("__rs2lean_vec", _) => {
+                let el = match expect.map(|t| self.u.resolve(t)) {
+                    Some(Ty::List(t)) => Some(*t),
+                    _ => None,
+                };
+                let mut steps = vec![];
+                let mut atoms = vec![];
+                let mut ety = el.unwrap_or_else(|| self.u.fresh_any());
+                for a in &args {
+                    let v = self.expr(a, Some(&ety))?;
+                    ety = self.u.unify(&ety, &v.ty)?;
+                    steps.extend(v.steps);
+                    atoms.push(v.atom);
+                }
+                return Ok(Val { steps, atom: format!("[{}]", atoms.join(", ")), prop: None, ty: Ty::list(ety) });
+            }
             ("BitVec::new", 0) => return Ok(Val::pure("[]", Ty::list(Ty::Bool))),
             // capacity hints are not modelled (the argument is not evaluated)
             ("Vec::new", 0) | ("String::new", 0) | ("Vec::with_capacity", 1) | ("String::with_capacity", 1) => {
+                if let syn::PathArguments::AngleBracketed(ab) = &p.segments[0].arguments {
+                    if let Some(syn::GenericArgument::Type(t)) = ab.args.first() {
+                        return Ok(Val::pure("[]", Ty::list(rust_ty(t)?)));
+                    }
+                }
                 let ty = match expect.map(|t| self.u.resolve(t)) {
                     Some(t @ Ty::List(_)) | Some(t @ Ty::Str) => t,
                     _ => {
@@ -663,7 +745,7 @@ impl<'g> FnCx<'g> {
     }
 
     /// a closure literal passed where `Fn(A..) -> R` is expected: a pure Lean lambda
-    fn closure_arg(&mut self, cl: &syn::ExprClosure, atys: &[Ty]) -> R<Val> {
+    pub fn closure_arg(&mut self, cl: &syn::ExprClosure, atys: &[Ty]) -> R<Val> {
         if cl.inputs.len() != atys.len() {
             return unsupported("closure arity", cl.span());
         }
@@ -671,6 +753,18 @@ impl<'g> FnCx<'g> {
         let mut names = vec![];
         let mut psteps = vec![];
         for (i, (p, t)) in cl.inputs.iter().zip(atys.iter()).enumerate() {
+            // a plain identifier becomes the binder itself
+            let p0 = match p {
+                syn::Pat::Reference(r) => &*r.pat,
+                other => other,
+            };
+            if let syn::Pat::Ident(pi) = p0 {
+                if pi.subpat.is_none() {
+                    let lean = self.declare(&pi.ident.to_string(), t.clone());
+                    names.push(lean);
+                    continue;
+                }
+            }
             let n = format!("a{}_", i);
             self.bind_pattern(p, &n, t, &mut psteps)?;
             names.push(n);
@@ -841,6 +935,71 @@ impl<'g> FnCx<'g> {
                         let inner = self.iter_expr(&m.receiver)?;
                         Ok(Val { steps: inner.steps, atom: format!("{}.reverse", paren_atom(&inner.atom)), prop: None, ty: inner.ty })
                     }
+                    "collect" | "as_slice" => self.iter_expr(&m.receiver),
+                    "tokens" if m.args.is_empty() => {
+                        let recv = self.expr(&m.receiver, None)?;
+                        match self.u.resolve(&recv.ty) {
+                            Ty::Struct(n) if n == "SourceMap" && self.g.structs.contains_key("Token") => {
+                                Ok(Val { steps: recv.steps, atom: format!("(rsTokens {})", paren_atom(&recv.atom)), prop: None, ty: Ty::list(Ty::Struct("Token".into())) })
+                            }
+                            _ => unsupported("tokens() on this type", e.span()),
+                        }
+                    }
+                    "chunks" if m.args.len() == 1 => {
+                        let inner = self.iter_expr(&m.receiver)?;
+                        let n = self.expr(&m.args[0], Some(&Ty::usize()))?;
+                        self.u.unify(&n.ty, &Ty::usize())?;
+                        let mut steps = inner.steps.clone();
+                        steps.extend(n.steps.clone());
+                        if !n.atom.parse::<u128>().map(|x| x != 0).unwrap_or(false) {
+                            steps.push(Step::Guard(format!("{} ≠ 0", n.atom), ".panic".into()));
+                        }
+                        Ok(Val { steps, atom: format!("(rsChunks {} {})", paren_atom(&n.atom), paren_atom(&inner.atom)), prop: None, ty: Ty::list(inner.ty) })
+                    }
+                    "filter" if m.args.len() == 1 => {
+                        let inner = self.iter_expr(&m.receiver)?;
+                        let el = match self.u.resolve(&inner.ty) {
+                            Ty::List(t) => *t,
+                            Ty::Str => Ty::u8(),
+                            _ => return unsupported("filter of a non-list", e.span()),
+                        };
+                        let cl = match strip_paren(&m.args[0]) {
+                            syn::Expr::Closure(c) => c,
+                            _ => return unsupported("filter with a non-closure", e.span()),
+                        };
+                        let f = self.closure_arg(cl, &[el.clone()])?;
+                        match &f.ty {
+                            Ty::Fun(_, r) if **r == Ty::Bool => {}
+                            _ => return unsupported("filter closure not returning bool", e.span()),
+                        }
+                        Ok(Val { steps: inner.steps, atom: format!("({}.filter {})", paren_atom(&inner.atom), f.atom), prop: None, ty: Ty::list(el) })
+                    }
+                    "split" if m.args.len() == 1 && matches!(strip_paren(&m.args[0]), syn::Expr::Reference(_) | syn::Expr::Index(_)) => {
+                        // s.split(&['/', '\\'][..]): split at any of the listed (ASCII) characters
+                        let recv = self.expr(&m.receiver, None)?;
+                        self.u.unify(&recv.ty, &Ty::Str)?;
+                        fn chars_of(e: &syn::Expr) -> Option<Vec<u32>> {
+                            match e {
+                                syn::Expr::Reference(r) => chars_of(&r.expr),
+                                syn::Expr::Paren(p) => chars_of(&p.expr),
+                                syn::Expr::Index(i) => chars_of(&i.expr),
+                                syn::Expr::Array(a) => a
+                                    .elems
+                                    .iter()
+                                    .map(|x| match x {
+                                        syn::Expr::Lit(l) => match &l.lit {
+                                            syn::Lit::Char(c) if (c.value() as u32) < 128 => Some(c.value() as u32),
+                                            _ => None,
+                                        },
+                                        _ => None,
+                                    })
+                                    .collect(),
+                                _ => None,
+                            }
+                        }
+                        let cs = chars_of(&m.args[0]).ok_or_else(|| format!("unsupported: split pattern (line {})", e.span().start().line))?;
+                        Ok(Val { steps: recv.steps, atom: format!("(rsSplitAny [{}] {})", cs.iter().map(|c| c.to_string()).collect::<Vec<_>>().join(", "), paren_atom(&recv.atom)), prop: None, ty: Ty::list(Ty::Str) })
+                    }
                     "split" if m.args.len() == 1 => {
                         let recv = self.expr(&m.receiver, None)?;
                         self.u.unify(&recv.ty, &Ty::Str)?;
@@ -870,7 +1029,7 @@ impl<'g> FnCx<'g> {
     }
 
     pub fn is_mutating_method(&self, m: &syn::ExprMethodCall) -> bool {
-        matches!(m.method.to_string().as_str(), "push" | "push_str" | "clear" | "truncate" | "extend_from_slice" | "resize" | "store_le")
+        matches!(m.method.to_string().as_str(), "push" | "push_str" | "clear" | "truncate" | "extend_from_slice" | "resize" | "store_le" | "pop" | "sort_by_key" | "set")
     }
 
     /// `v.push(x)` and friends as a statement: rebind the receiver
@@ -901,6 +1060,22 @@ impl<'g> FnCx<'g> {
             steps.extend(hi.steps.clone());
             steps.extend(v.steps.clone());
             steps.push(Step::BindOk(var.lean.clone(), format!("rsStoreLe {} {} {} {}", var.lean, paren_atom(&lo.atom), paren_atom(&hi.atom), paren_atom(&v.atom))));
+            return Ok(steps);
+        }
+        if m.method == "set" && m.args.len() == 2 {
+            // `view.set(i, b)` where `view = bytes.view_bits_mut::<Lsb0>()`: writes through to the bytes
+            let alias = match strip_paren(&m.receiver) {
+                syn::Expr::Path(p) if p.path.segments.len() == 1 => p.path.segments[0].ident.to_string(),
+                _ => return unsupported("set on something other than a bit view", m.span()),
+            };
+            let target = self.bit_views.get(&alias).cloned().ok_or_else(|| format!("unsupported: set on {} (not a view_bits_mut alias)", alias))?;
+            let var = self.lookup(&target).ok_or("internal: alias target")?;
+            let i = self.expr(&m.args[0], Some(&Ty::usize()))?;
+            self.u.unify(&i.ty, &Ty::usize())?;
+            let b = self.expr(&m.args[1], Some(&Ty::Bool))?;
+            let mut steps = i.steps.clone();
+            steps.extend(b.steps.clone());
+            steps.push(Step::BindOk(var.lean.clone(), format!("rsSetBit {} {} {}", var.lean, paren_atom(&i.atom), paren_atom(&b.atom))));
             return Ok(steps);
         }
         let (name, var) = self.assign_target(&m.receiver)?;
@@ -935,6 +1110,21 @@ impl<'g> FnCx<'g> {
                 format!("{} ++ {}", var.lean, a.atom)
             }
             ("clear", 0) => "[]".to_string(),
+            // `v.pop();` as a statement: the popped value is dropped
+            ("pop", 0) => format!("{}.dropLast", var.lean),
+            ("sort_by_key", 1) => {
+                // slice::sort_by_key is a stable sort: mirrored by a stable insertion sort on the key
+                let cl = match strip_paren(&m.args[0]) {
+                    syn::Expr::Closure(c) => c,
+                    _ => return unsupported("sort_by_key with a non-closure", m.span()),
+                };
+                let f = self.closure_arg(cl, &[elem.clone()])?;
+                match &f.ty {
+                    Ty::Fun(_, r) if matches!(**r, Ty::Int(it) if !it.signed()) => {}
+                    _ => return unsupported("sort_by_key with a non-unsigned key", m.span()),
+                }
+                format!("rsSortByKey {} {}", f.atom, var.lean)
+            }
             ("resize", 2) => {
                 let n = self.expr(&m.args[0], Some(&Ty::usize()))?;
                 self.u.unify(&n.ty, &Ty::usize())?;
@@ -957,6 +1147,27 @@ impl<'g> FnCx<'g> {
 
     fn method_expr(&mut self, m: &syn::ExprMethodCall, expect: Option<&Ty>) -> R<Val> {
         let name = m.method.to_string();
+        if name == "collect" && m.args.is_empty() {
+            // repeat(s).take(n).collect::<String>()
+            if let syn::Expr::MethodCall(tk) = strip_paren(&m.receiver) {
+                if tk.method == "take" && tk.args.len() == 1 {
+                    if let syn::Expr::Call(rc) = strip_paren(&tk.receiver) {
+                        if let syn::Expr::Path(rp) = &*rc.func {
+                            if path_last(&rp.path) == "repeat" && rc.args.len() == 1 {
+                                let piece = self.expr(&rc.args[0], Some(&Ty::Str))?;
+                                self.u.unify(&piece.ty, &Ty::Str)?;
+                                let n = self.expr(&tk.args[0], Some(&Ty::usize()))?;
+                                self.u.unify(&n.ty, &Ty::usize())?;
+                                let mut steps = piece.steps.clone();
+                                steps.extend(n.steps.clone());
+                                return Ok(Val { steps, atom: format!("(List.replicate {} {}).flatten", paren_atom(&n.atom), paren_atom(&piece.atom)), prop: None, ty: Ty::Str });
+                            }
+                        }
+                    }
+                }
+            }
+            return self.iter_expr(&m.receiver);
+        }
         let recv = self.expr(&m.receiver, None)?;
         let rty = self.u.resolve(&recv.ty);
         if let Ty::Struct(sn) = &rty {
@@ -1014,6 +1225,33 @@ impl<'g> FnCx<'g> {
                 steps.extend(f.steps.clone());
                 let lt = self.lt_for(&kty, m.span())?;
                 pure(steps, format!("(binarySearchBy {} ({}.map {}) {})", lt, paren_atom(&a), ford, paren_atom(&key.atom)), Ty::Res2(Box::new(Ty::usize()), Box::new(Ty::usize())))
+            }
+            (Ty::Str, "into", 0) => pure(steps, a, Ty::Str),
+            // bitvec views over bytes (Lsb0): bit 8*i + j is bit j of byte i
+            (Ty::List(t), "view_bits", 0) if **t == Ty::u8() => pure(steps, format!("(rsViewBits {})", paren_atom(&a)), Ty::list(Ty::Bool)),
+            (Ty::Str, "view_bits", 0) => pure(steps, format!("(rsViewBits {})", paren_atom(&a)), Ty::list(Ty::Bool)),
+            (Ty::List(t), "load", 0) if **t == Ty::Bool => {
+                // bits.load::<u8>(): bitvec panics on an empty or over-wide region
+                steps.push(Step::Guard(format!("0 < {}.length ∧ {}.length ≤ 8", paren_atom(&a), paren_atom(&a)), ".panic".into()));
+                pure(steps, format!("(rsLoadLe {})", paren_atom(&a)), Ty::u8())
+            }
+            (Ty::List(t), "join", 1) if **t == Ty::Str => {
+                let sep = self.expr(&m.args[0], Some(&Ty::Str))?;
+                self.u.unify(&sep.ty, &Ty::Str)?;
+                steps.extend(sep.steps.clone());
+                pure(steps, format!("(rsJoin {} {})", paren_atom(&sep.atom), paren_atom(&a)), Ty::Str)
+            }
+            (Ty::List(t), "partition_point", 1) => {
+                let cl = match strip_paren(&m.args[0]) {
+                    syn::Expr::Closure(c) => c,
+                    _ => return unsupported("partition_point with a non-closure", m.span()),
+                };
+                let f = self.closure_arg(cl, &[(**t).clone()])?;
+                match &f.ty {
+                    Ty::Fun(_, r) if **r == Ty::Bool => {}
+                    _ => return unsupported("partition_point closure not returning bool", m.span()),
+                }
+                pure(steps, format!("(rsPartitionPoint {} {})", f.atom, paren_atom(&a)), Ty::usize())
             }
             (Ty::List(t), "first", 0) => pure(steps, format!("{}.head?", paren_atom(&a)), Ty::opt((**t).clone())),
             (Ty::List(t), "last", 0) => pure(steps, format!("{}.getLast?", paren_atom(&a)), Ty::opt((**t).clone())),
@@ -1106,7 +1344,17 @@ impl<'g> FnCx<'g> {
                 };
                 self.scopes.push(HashMap::new());
                 let mut psteps = vec![];
-                self.bind_pattern(pat, "v_", t, &mut psteps)?;
+                let p0 = match pat {
+                    syn::Pat::Reference(r) => &*r.pat,
+                    other => other,
+                };
+                let binder = match p0 {
+                    syn::Pat::Ident(pi) if pi.subpat.is_none() => self.declare(&pi.ident.to_string(), (**t).clone()),
+                    _ => {
+                        self.bind_pattern(pat, "v_", t, &mut psteps)?;
+                        "v_".to_string()
+                    }
+                };
                 let b = self.expr(body, None)?;
                 self.scopes.pop();
                 if !b.steps.is_empty() {
@@ -1114,7 +1362,7 @@ impl<'g> FnCx<'g> {
                 }
                 let inner = wrap(&psteps, b.atom.clone());
                 let _ = expect;
-                pure(steps, format!("({}.map (fun v_ => {}))", paren_atom(&a), paren(&inner)), Ty::opt(b.ty))
+                pure(steps, format!("({}.map (fun {} => {}))", paren_atom(&a), binder, paren(&inner)), Ty::opt(b.ty))
             }
             _ => unsupported(&format!("method .{}() on {:?}", name, rty), m.span()),
         }
